@@ -9,7 +9,7 @@ From Coq Require Import List NArith ZArith Bool Arith Lia.
 From RecordUpdate Require Import RecordUpdate.
 From JV Require Import Bytes Msg SrvModel SrvLemmas SrvBasics SrvC01 SrvC07 SrvC09 SrvC10 SrvC08 SrvC08b SrvC08c SrvC08q
   SrvC08m SrvHist SrvC01b.
-From JV Require SrvC03 SrvC06 SrvC06b SrvNoCrash SrvC08r SrvC08u SrvC08w SrvC08x SrvC09b SrvC09c.
+From JV Require SrvC03 SrvC06 SrvC06b SrvNoCrash SrvC08n SrvC08r SrvC08u SrvC08w SrvC08x SrvC09b SrvC09c.
 Import ListNotations.
 
 (** * 0. release-only runs *)
@@ -341,4 +341,191 @@ Example c01_eventually_answered_nonvacuous :
 Proof.
   cbv zeta. split; [vm_compute; discriminate|]. split; [vm_compute; discriminate|]. split; [repeat constructor|].
   repeat split; try (vm_compute; reflexivity).
+Qed.
+
+(** * 3. C03 / C06: later requests eventually start; the semaphore is work-conserving *)
+Lemma released_mono s s' u : units_ext (units s) (units s') -> SrvC03.released s u = true -> SrvC03.released s' u = true.
+Proof.
+  unfold SrvC03.released, SrvC03.rel_in. intros X H.
+  destruct (nth_error (units s) u) as [un|] eqn:E; [|discriminate].
+  destruct (X _ _ E) as (un' & E' & Le). rewrite E'. destruct Le as [_ _ _ Rk].
+  unfold SrvC03.released_u in *. destruct (u_st un); try discriminate; destruct (u_st un'); cbn in Rk; auto; lia.
+Qed.
+
+(* at a quiescent point the slots in use are exactly the executing handlers *)
+Lemma quiescent_slots_executing c s : reach c s -> quiescent s = true -> SrvC06.slots_used s = SrvC06.executing s.
+Proof.
+  intros R Q. unfold SrvC06.slots_used, SrvC06.executing. apply SrvC03.countb_ext_in. intros t It.
+  apply In_nth_error in It as (k & E). destruct (SrvC06.holds t) eqn:H.
+  - unfold SrvC06.is_running. rewrite (quiescent_holder_running _ _ _ _ R Q E H). reflexivity.
+  - unfold SrvC06.holds in H. unfold SrvC06.is_running. destruct (t_st t); auto; discriminate.
+Qed.
+
+(* everything the transport has delivered has been read *)
+Lemma quiescent_reader c s : reach c s -> quiescent s = true ->
+  (forall f, rd s <> RHold f) /\ (rd s = RIdle -> ch_in s = []).
+Proof.
+  intros R Q. split; [|apply (SrvC09b.reach_idle_empty c s R)].
+  intros f Hf. destruct (reader_enabled s f (no_crash _ _ R) Hf) as (s' & os & E).
+  apply (SrvC03.quiescent_none s LRelRead Q). eapply rel_step_enabled; eauto.
+Qed.
+
+(* a task of a released message at a quiescent point *)
+Lemma quiescent_released_task c s k t : reach c s -> quiescent s = true ->
+  nth_error (tasks s) k = Some t -> SrvC03.released s (t_unit t) = true ->
+  t_st t = TSkip \/ (exists b, t_st t = TDone b) \/ t_st t = TRunning \/
+  (t_st t = TWaiting /\ sem_free s = 0 /\ SrvC06.slots_used s = cf_K c /\ SrvC06.executing s = cf_K c).
+Proof.
+  intros R Q E Rl.
+  destruct (SrvC03.quiescent_task _ _ _ _ R (no_crash _ _ R) Q E Rl) as [Z|[Z|[Z|(Z & F & U)]]]; auto.
+  right. right. right. split; auto. split; auto. split; auto. rewrite <- (quiescent_slots_executing c s R Q). exact U.
+Qed.
+
+Definition c03_later_started (c : config) (s : state) (tr : list label) (s' : state) (oss : list (list obs)) : Prop :=
+  ((forall f, rd s' <> RHold f) /\ (rd s' = RIdle -> ch_in s' = [])) /\
+  ((inq s' <> [] \/ exists u, dp s' = DAtBarrier u \/ dp s' = DBarrierWait u) ->
+     exists u k n, dp s' = DBarrierWait u /\ 0 < nbar s' /\ nth_error (tasks s') k = Some n /\ is_note n = true /\
+       runnable n = true /\ t_unit n < u /\ held_in_handler s' n) /\
+  (forall k t, nth_error (tasks s') k = Some t -> SrvC03.released s' (t_unit t) = true ->
+     (t_st t = TAtAcquire \/ t_st t = TWaiting) ->
+     t_st t = TWaiting /\ sem_free s' = 0 /\ SrvC06.slots_used s' = cf_K c /\ SrvC06.executing s' = cf_K c) /\
+  ((forall j n, nth_error (tasks s') j = Some n -> runnable n = true -> is_note n = true ->
+      SrvC03.released s' (t_unit n) = true -> exists b, t_st n = TDone b) ->
+     inq s' = [] /\ nbar s' = 0 /\ (forall u, ~ (dp s' = DAtBarrier u \/ dp s' = DBarrierWait u)) /\
+     forall v, v < length (units s') -> SrvC03.released s' v = true) /\
+  (forall k t', before_start s k = true -> nth_error (tasks s') k = Some t' -> t_st t' = TRunning ->
+     exists cn, In (OStart (t_params t') cn) (concat oss)).
+
+Theorem c03_later_requests_eventually_start c s : reach c s -> eventually s (c03_later_started c s).
+Proof.
+  intros R. apply (eventually_intro c); auto. intros tr s' oss H F R' Q.
+  pose proof (reach_reachf _ _ R') as Rf'. pose proof (no_crash _ _ R') as Cr'.
+  split; [apply (quiescent_reader c s' R' Q)|]. split; [|split; [|split]].
+  - intros Hold.
+    assert (Hb : exists u, dp s' = DBarrierWait u).
+    { destruct (quiescent_dp _ _ R' Q) as [Z|[Z|[(Z & _ & Iq)|(u & D & _)]]]; eauto; exfalso.
+      - destruct (ic_dpx _ (i8_c _ (reachf_inv8 _ _ Rf')) (or_intror Z)) as [Iq _].
+        destruct Hold as [N|(u & [Hb|Hb])]; congruence.
+      - destruct (ic_dpx _ (i8_c _ (reachf_inv8 _ _ Rf')) (or_introl Z)) as [Iq _].
+        destruct Hold as [N|(u & [Hb|Hb])]; congruence.
+      - destruct Hold as [N|(u & [Hb|Hb])]; congruence. }
+    destruct Hb as (u & D).
+    destruct (quiescent_barrier_held _ _ _ R' Q D) as (B & _ & k & t & E & Nt & Rn & Lt & _ & Hh).
+    exists u, k, t. auto 10.
+  - intros k t E Rl St.
+    destruct (quiescent_released_task _ _ _ _ R' Q E Rl) as [Z|[(b & Z)|[Z|Z]]]; auto; destruct St; congruence.
+  - intros Hn.
+    assert (Z : nbar s' = 0).
+    { rewrite (SrvC03.inv_nbar _ _ Rf'). apply countb_zero_forall. intros x Hx. apply In_nth_error in Hx as (j & E).
+      unfold SrvC03.open_note, SrvC03.open_in, SrvC03.rnote.
+      destruct (runnable x) eqn:Ru, (is_note x) eqn:Nx, (SrvC03.rel_in (units s') (t_unit x)) eqn:Rl; cbn; auto.
+      destruct (Hn _ _ E Ru Nx Rl) as (b & Dn). unfold SrvC03.tdone. rewrite Dn. reflexivity. }
+    assert (Nb : forall u, ~ (dp s' = DAtBarrier u \/ dp s' = DBarrierWait u)).
+    { intros u Hb. destruct (quiescent_dp _ _ R' Q) as [D|[D|[(D & _)|(u' & D & B)]]]; try lia;
+        destruct Hb as [Hb|Hb]; congruence. }
+    split; [|split; [exact Z|split; [exact Nb|]]].
+    + destruct (quiescent_dp _ _ R' Q) as [D|[D|[(_ & _ & Iq)|(u' & D & B)]]]; auto; try lia.
+      * apply (ic_dpx _ (i8_c _ (reachf_inv8 _ _ Rf')) (or_intror D)).
+      * apply (ic_dpx _ (i8_c _ (reachf_inv8 _ _ Rf')) (or_introl D)).
+    + apply (proj2 (SrvC03.frontier _ _ Rf')). exact Nb.
+  - intros k t' B E' St'.
+    assert (Bt : t_builtin t' = false).
+    { destruct (t_builtin t') eqn:Bt; auto. destruct (SrvC06.builtin_never_running _ _ _ _ R' E' Bt St'). }
+    destruct (SrvC08n.run_enter c tr s s' oss k t' (reach_reachf _ _ R) H B E') as [Hin|(cn & _ & Hin)]; eauto.
+    + rewrite St'. cbn. lia.
+    + rewrite St'. discriminate.
+Qed.
+
+(* non-vacuity (K = 1): a call is in its handler; a notification and then another call arrive in later messages.
+   Running on its own the server reads both, dispatches the notification, which queues for the slot (all K slots are
+   taken by executing handlers), and the third message waits at the barrier for that notification - not for the call *)
+Definition tr_call_running : list label := ex_tr_running ++
+  [LFeed (FMsg (InMsgs false [ex_note [1%N]])); LFeed (FMsg (InMsgs false [ex_call [50%N] [2%N]]))].
+
+Example c03_later_requests_eventually_start_nonvacuous :
+  exists s tr s' oss, reach ex_cfg s /\ run s tr = Some (s', oss) /\ rel_only tr /\ quiescent s' = true /\
+    length tr = 7 /\ mu_rel s = 17 /\
+    map t_st (tasks s') = [TRunning; TWaiting; TAtAcquire] /\ map u_st (units s') = [URunning; URunning; UAtBarrier] /\
+    dp s' = DBarrierWait 2 /\ nbar s' = 1 /\ sem_free s' = 0 /\ SrvC06.executing s' = cf_K ex_cfg /\ inq s' = [] /\
+    rd s' = RIdle /\ ch_in s = [FMsg (InMsgs false [ex_call [50%N] [2%N]])].
+Proof.
+  exists (st_of ex_cfg tr_call_running),
+    [LRelRead; LRelRead; LRelNext; LRelBarrier; LRelAcquire 1; LRelNext; LRelBarrier]. eexists _, _.
+  split; [apply reach_st_of; vm_compute; discriminate|]. split; [vm_compute; reflexivity|].
+  split; [repeat constructor|]. repeat split; vm_compute; reflexivity.
+Qed.
+
+(* C06: work conservation, eventually.  In the last state s' of a maximal release-only run the slots in use are the
+   executing handlers; with a free slot nobody waits for one; while fewer than K handlers are executing every request
+   of every released message has entered its handler (or is finished); and a request that in s was queued for a slot
+   or parked before Acquire with its message released has entered its handler during the run (OStart among its
+   observations), or is done (cancelled, or the built-in), or still waits with K handlers executing *)
+Definition c06_conserving (c : config) (s : state) (tr : list label) (s' : state) (oss : list (list obs)) : Prop :=
+  SrvC06.slots_used s' = SrvC06.executing s' /\
+  (0 < sem_free s' ->
+     sem_wait s' = [] /\ forall k t, nth_error (tasks s') k = Some t -> t_st t <> TWaiting /\ at_acquire s' t = false) /\
+  (SrvC06.executing s' < cf_K c -> forall k t, nth_error (tasks s') k = Some t -> SrvC03.released s' (t_unit t) = true ->
+     t_st t = TSkip \/ (exists b, t_st t = TDone b) \/ t_st t = TRunning) /\
+  (forall k t, nth_error (tasks s) k = Some t -> t_st t = TWaiting \/ at_acquire s t = true ->
+     exists t', nth_error (tasks s') k = Some t' /\
+       ((t_st t' = TRunning /\ exists cn, In (OStart (t_params t) cn) (concat oss)) \/
+        (exists b, t_st t' = TDone b) \/
+        (t_st t' = TWaiting /\ sem_free s' = 0 /\ SrvC06.executing s' = cf_K c))).
+
+Theorem c06_eventually_work_conserving c s : reach c s -> eventually s (c06_conserving c s).
+Proof.
+  intros R. apply (eventually_intro c); auto. intros tr s' oss H F R' Q.
+  pose proof (reach_reachf _ _ R) as Rf. pose proof (reach_reachf _ _ R') as Rf'. pose proof (no_crash _ _ R') as Cr'.
+  split; [apply (quiescent_slots_executing c s' R' Q)|]. split; [|split].
+  - intros Fr. split; [apply (SrvC06.wait_queue _ _ R'); exact Fr|]. apply (SrvC06.work_conserving c s' R' Cr' Q Fr).
+  - intros Lt k t E Rl.
+    destruct (quiescent_released_task _ _ _ _ R' Q E Rl) as [Z|[Z|[Z|(_ & _ & _ & Z)]]]; auto. lia.
+  - intros k t E St.
+    destruct (run_task_le _ _ _ _ _ _ _ Rf H E) as (t' & E' & Le). exists t'. split; [exact E'|].
+    assert (Rl : SrvC03.released s (t_unit t) = true).
+    { destruct St as [St|St].
+      - destruct (SrvC03.released s (t_unit t)) eqn:Rl; auto.
+        destruct (SrvC03.unreleased_pending _ _ _ _ Rf E Rl); congruence.
+      - unfold at_acquire in St. destruct (t_st t); try discriminate. apply SrvC03.unit_running_released; auto. }
+    assert (Rl' : SrvC03.released s' (t_unit t') = true).
+    { rewrite (tl_unit _ _ Le). apply (released_mono s s'); auto. apply (run_ext _ _ _ _ _ Rf H). }
+    assert (B : before_start s k = true).
+    { unfold before_start. rewrite E. apply Nat.ltb_lt. destruct St as [St|St]; [rewrite St; cbn; lia|].
+      unfold at_acquire in St. destruct (t_st t); try discriminate. cbn. lia. }
+    assert (Ns : t_st t' <> TSkip).
+    { destruct (tl_st _ _ Le) as (_ & Sk & _). intros Z. apply Sk in Z. destruct St as [St|St]; [congruence|].
+      unfold at_acquire in St. rewrite Z in St. discriminate. }
+    destruct (quiescent_released_task _ _ _ _ R' Q E' Rl') as [Z|[Z|[Z|(Z & Fr & _ & Ex)]]]; auto; [congruence|].
+    left. split; [exact Z|].
+    assert (Bt : t_builtin t' = false).
+    { destruct (t_builtin t') eqn:Bt; auto. destruct (SrvC06.builtin_never_running _ _ _ _ R' E' Bt Z). }
+    rewrite <- (tl_params _ _ Le).
+    destruct (SrvC08n.run_enter c tr s s' oss k t' Rf H B E') as [Hin|(cn & _ & Hin)]; eauto.
+    + rewrite Z. cbn. lia.
+    + rewrite Z. discriminate.
+Qed.
+
+(* non-vacuity (K = 2, two slots): a batch of two calls has been released; running on its own the server lets both
+   enter their handlers (two OStart), then both slots are taken *)
+Definition tr_two_released : list label :=
+  [LStart; LRelNext; LFeed (FMsg (InMsgs true [ex_call [49%N] [1%N]; ex_call [50%N] [2%N]])); LRelRead; LRelBarrier].
+
+Example c06_eventually_work_conserving_nonvacuous :
+  exists s tr s' oss, reach ex_cfg2 s /\ run s tr = Some (s', oss) /\ rel_only tr /\ quiescent s' = true /\
+    sem_free s = 2 /\ map (fun t => at_acquire s t) (tasks s) = [true; true] /\
+    map t_st (tasks s') = [TRunning; TRunning] /\ sem_free s' = 0 /\ SrvC06.executing s' = cf_K ex_cfg2 /\
+    concat oss = [OStart [2%N] false; OStart [1%N] false].
+Proof.
+  exists (st_of ex_cfg2 tr_two_released), [LRelAcquire 1; LRelNext; LRelAcquire 0]. eexists _, _.
+  split; [apply reach_st_of; vm_compute; discriminate|]. split; [vm_compute; reflexivity|].
+  split; [repeat constructor|]. repeat split; vm_compute; reflexivity.
+Qed.
+
+Lemma before_start_spec s k : before_start s k = true <->
+  nth_error (tasks s) k = None \/ exists t, nth_error (tasks s) k = Some t /\ (t_st t = TAtAcquire \/ t_st t = TWaiting).
+Proof.
+  unfold before_start. destruct (nth_error (tasks s) k) as [t|]; [|split; auto].
+  split.
+  - intros H. apply Nat.ltb_lt in H. right. exists t. split; auto. destruct (t_st t); cbn in H; auto; lia.
+  - intros [H|(t0 & [= <-] & [H|H])]; [discriminate| |]; rewrite H; reflexivity.
 Qed.
